@@ -544,6 +544,18 @@ func (rs *regionState) applyOp(obs string) bool {
 
 // genReject: the reject-leader label property: none, one entry, or several entries – on the same key
 // with different values and on different keys (a store may match only the second or third entry)
+// caseKey sometimes changes the case of a store label KEY (Zone / ZONE): PD looks labels up
+// case-insensitively (StoreInfo.GetLabelValue), the configured location labels and constraint keys stay lower-case
+func caseKey(r *rng.R, key string) string {
+	switch r.Pick(88, 7, 5) {
+	case 1:
+		return strings.ToUpper(key[:1]) + key[1:]
+	case 2:
+		return strings.ToUpper(key)
+	}
+	return key
+}
+
 func genReject(r *rng.R) string {
 	switch r.Pick(55, 15, 30) {
 	case 0:
@@ -611,9 +623,9 @@ func gen(w *world, t *trace.W, r *rng.R, malformed bool) {
 		}
 		var lb []string
 		if len(labels) > 0 || r.Bool(1, 2) {
-			lb = append(lb, "zone:"+pick(r, zoneVals))
+			lb = append(lb, caseKey(r, "zone")+":"+pick(r, zoneVals))
 			if r.Bool(8, 10) {
-				lb = append(lb, "host:"+pick(r, hostVals))
+				lb = append(lb, caseKey(r, "host")+":"+pick(r, hostVals))
 			}
 		}
 		isFlash := flash && i > n-2
